@@ -182,7 +182,44 @@ def hmac512_oracle(key, msg):
     return hmac512(key, msg)
 
 
+# ---- independent (Electrum-style) statement of the mnemonic text normalisation ---------------------------------
+REF_CJK = [(0x4E00, 0x9FFF), (0x3400, 0x4DBF), (0x20000, 0x2A6DF), (0x2A700, 0x2B73F), (0x2B740, 0x2B81F),
+           (0xF900, 0xFAFF), (0x2F800, 0x2FA1D), (0x3190, 0x319F), (0x2E80, 0x2EFF), (0x2F00, 0x2FDF),
+           (0x31C0, 0x31EF), (0x2FF0, 0x2FFF), (0xE0100, 0xE01EF), (0x3100, 0x312F), (0x31A0, 0x31BF),
+           (0xFF00, 0xFFEF), (0x3040, 0x309F), (0x30A0, 0x30FF), (0x31F0, 0x31FF), (0x1B000, 0x1B0FF),
+           (0xAC00, 0xD7AF), (0x1100, 0x11FF), (0xA960, 0xA97F), (0xD7B0, 0xD7FF), (0x3130, 0x318F),
+           (0xA4D0, 0xA4FF), (0x16F00, 0x16F9F), (0xA000, 0xA48F), (0xA490, 0xA4CF)]
+
+
+def ref_is_cjk(ch):
+    return any(a <= ord(ch) <= b for a, b in REF_CJK)
+
+
+def ref_normalize(text):
+    """NFKD -> lower -> drop combining marks -> collapse whitespace -> drop a space between two CJK characters"""
+    t = unicodedata.normalize('NFKD', text).lower()
+    t = ''.join(c for c in t if not unicodedata.combining(c))
+    t = ' '.join(t.split())
+    out = []
+    for i, c in enumerate(t):
+        if c == ' ' and 0 < i < len(t) - 1 and ref_is_cjk(t[i - 1]) and ref_is_cjk(t[i + 1]):
+            continue
+        out.append(c)
+    return ''.join(out)
+
+
+def ref_stretch(text, password):
+    return hashlib.pbkdf2_hmac('sha512', ref_normalize(text).encode('utf-8'), ref_normalize(password).encode('utf-8'), 2048, 64)
+
+
+def u32(text):
+    return text.encode('utf-32-be')
+
+
 ORACLES = {
+    'nfkd': lambda b: u32(unicodedata.normalize('NFKD', b.decode('utf-32-be'))),
+    'lower': lambda b: u32(b.decode('utf-32-be').lower()),
+    'combining': lambda b: b'\x01' if unicodedata.combining(b.decode('utf-32-be')) else b'\x00',
     'dsha': dsha, 'hmac512': hmac512_oracle, 'hash160': hash160,
     'pub': ec_pub, 'pub_add': ec_pub_add, 'pub_valid': ec_pub_valid,
 }
@@ -221,6 +258,7 @@ ERR_PATTERNS = [
     (ValueError, 'invalid chain code', 'EChainCode'),
     (ValueError, 'invalid depth', 'EDepth'),
     (ValueError, 'is not in list', 'EWord'),
+    (IndexError, 'index out of range', 'EPayload'),
 ]
 
 
@@ -751,7 +789,7 @@ def do_account(run, model, case):
         shutil.rmtree(tmp, ignore_errors=True)
 
     # --- monitor: independent derivation m / chain / i from the stretched seed
-    seed = hashlib.pbkdf2_hmac('sha512', ' '.join(case['mnemonic'].lower().split()).encode(), b'lbryum', 2048, 64)
+    seed = ref_stretch(case['mnemonic'], 'lbryum')
     ref = RefKey.from_seed(seed)
     refchains = {c: ref.neuter().child(c) for c in (0, 1)}
     refaddr = {}
@@ -772,7 +810,10 @@ def do_account(run, model, case):
         for c in (0, 1):
             rows = snap[c]
             if [r['n'] for r in rows] != list(range(len(rows))):
-                bad = f'chain {c}: indices not contiguous from 0 after {op}: {[r["n"] for r in rows]}'
+                ns = [r['n'] for r in rows]
+                missing = sorted(set(range(max(ns) + 1)) - set(ns))[:10]
+                bad = (f'chain {c}: stored child numbers are not 0..{len(ns) - 1} in order after {op}: {len(ns)} records, '
+                       f'largest n {max(ns)}, missing {missing}' + ('' if missing else f', order {ns[:12]}..'))
             elif any(r['addr'] != ra(c, r['n']) for r in rows):
                 bad = f'chain {c}: an address differs from m/{c}/n derived independently'
             elif len(rows) < len(prev[c]) or any(
@@ -1010,6 +1051,192 @@ def do_scalar(run, model, case):
     run.compare('C06.pub_add_oracle', case, pimpl.get('ok'), ec_pub_add(ec_pub(k), t).hex() or None)
 
 
+# ---- address validation (Ledger.is_pubkey_address / is_script_address, Daemon.valid_address_or_error) ------------
+def valid_address_or_error(ledger, address, allow_script_address=False):
+    """lbry.extras.daemon.daemon.Daemon.valid_address_or_error (that module cannot be imported here): the same
+    statement, calling the real ledger class"""
+    try:
+        assert ledger.is_pubkey_address(address) or (
+            allow_script_address and ledger.is_script_address(address)
+        )
+    except:  # noqa: E722  (as in the daemon)
+        raise Exception(f"'{address}' is not a valid address")
+
+
+def corrupt_text(txt, kind, pos, ch):
+    if kind == 'sub':
+        if pos >= len(txt) or txt[pos] == ch:
+            return None
+        return txt[:pos] + ch + txt[pos + 1:]
+    if kind == 'del':
+        return txt[:pos] + txt[pos + 1:] if pos < len(txt) else None
+    if kind == 'swap':
+        if pos + 1 >= len(txt) or txt[pos] == txt[pos + 1]:
+            return None
+        return txt[:pos] + txt[pos + 1] + txt[pos] + txt[pos + 2:]
+    return txt[:pos] + ch + txt[pos:]
+
+
+def do_addrvalid(run, model, case):
+    """one string through the three validators of one ledger class"""
+    cls = LEDGERS[case['ledger']]
+    a = case['a']
+    pv, sv = cls.pubkey_address_prefix[0], cls.script_address_prefix[0]
+    run.case(case, nontrivial=True, sample=False)
+    obs = {
+        'is_pubkey': guarded(lambda: bool(cls.is_pubkey_address(a))),
+        'is_script': guarded(lambda: bool(cls.is_script_address(a))),
+        'valid': 'ok' in guarded(lambda: valid_address_or_error(cls, a)),
+        'valid_with_script': 'ok' in guarded(lambda: valid_address_or_error(cls, a, True)),
+    }
+    mod = {
+        'is_pubkey': model.call('is_version_address', ver=pv, a=thex(a)),
+        'is_script': model.call('is_version_address', ver=sv, a=thex(a)),
+        'valid': model.call('valid_address', pub_ver=pv, script_ver=sv, allow_script=False, a=thex(a)),
+        'valid_with_script': model.call('valid_address', pub_ver=pv, script_ver=sv, allow_script=True, a=thex(a)),
+    }
+    # independent reading: a valid address is Base58Check(version byte ++ rest) with a matching checksum
+    raw = ref_b58decode(a) if a and all(c in B58 for c in a) else b''
+    payload, chk = raw[:-4], raw[-4:]
+    sound = len(raw) >= 5 and chk == dsha(payload)[:4]
+    want_pub = sound and payload[0] == pv
+    want_script = sound and payload[0] == sv
+    run.count('addrvalid:' + ('pubkey' if want_pub else 'script' if want_script else 'other-version' if sound else 'invalid'))
+    bad = None
+    if (obs['is_pubkey'] == {'ok': True}) != want_pub:
+        bad = f'{cls.__name__}.is_pubkey_address({a!r}) -> {obs["is_pubkey"]}, but checksum-valid pubkey address = {want_pub}'
+    elif (obs['is_script'] == {'ok': True}) != want_script:
+        bad = f'{cls.__name__}.is_script_address({a!r}) -> {obs["is_script"]}, but checksum-valid script address = {want_script}'
+    elif obs['valid'] != want_pub or obs['valid_with_script'] != (want_pub or want_script):
+        bad = (f'valid_address_or_error({a!r}) accepts={obs["valid"]}/{obs["valid_with_script"]} (plain/allow script), '
+               f'expected {want_pub}/{want_pub or want_script}')
+    if bad and case.get('orig'):
+        bad += f' [a damaged copy of the valid address {case["orig"]}]'
+    if bad:
+        run.violation(case, bad, signature={'op': 'addrvalid', 'ledger': case['ledger'], 'a': a})
+    else:
+        run.compare('C06.address_validators', case, obs, mod)
+
+
+def do_addrcheck(run, model, case):
+    """a valid address of one ledger class (pubkey or script version byte) and damaged copies of it"""
+    cls = LEDGERS[case['ledger']]
+    h160 = bytes.fromhex(case['h160'])
+    run.case(case, nontrivial=True)
+    run.count('addrcheck:%s:%s' % (case['ledger'], case['kind']))
+    make = cls.hash160_to_address if case['kind'] == 'pubkey' else cls.hash160_to_script_address
+    addr = must(f'{cls.__name__}.hash160_to_{"" if case["kind"] == "pubkey" else "script_"}address', lambda: make(h160))
+    prefix = cls.pubkey_address_prefix if case['kind'] == 'pubkey' else cls.script_address_prefix
+    if addr != ref_b58check(prefix + h160):
+        run.violation(case, f'address of hash160 {h160.hex()} is {addr!r}, Base58Check gives {ref_b58check(prefix + h160)!r}',
+                      signature={'op': 'addrcheck', 'ledger': case['ledger'], 'kind': case['kind'], 'h160': case['h160']})
+        return
+    do_addrvalid(run, model, {'op': 'addrvalid', 'ledger': case['ledger'], 'a': addr})
+    for other in LEDGERS:
+        if other != case['ledger']:
+            do_addrvalid(run, model, {'op': 'addrvalid', 'ledger': other, 'a': addr})
+    for kind, pos, ch in case.get('corrupt', []):
+        t = corrupt_text(addr, kind, pos, ch)
+        if t is not None:
+            do_addrvalid(run, model, {'op': 'addrvalid', 'ledger': case['ledger'], 'a': t, 'orig': addr})
+
+
+def spellings(text):
+    """other ways of typing the same text: composed / decomposed / compatibility forms, upper case, padded whitespace"""
+    out = []
+    for form in ('NFC', 'NFD', 'NFKC', 'NFKD'):
+        out.append((form, unicodedata.normalize(form, text)))
+    out.append(('upper', unicodedata.normalize('NFC', text).upper()))
+    out.append(('padded', '  ' + text.replace(' ', ' \t ') + '\n'))
+    out.append(('ideographic-space', text.replace(' ', '\u3000')))
+    return out
+
+
+def do_normalize(run, model, case):
+    """mnemonic.normalize_text on Unicode text: implementation, model (NFKD / lower / combining as oracles) and
+    the independent reference; equivalent spellings must normalise identically"""
+    text = case['text']
+    run.case(case, nontrivial=not text.isascii())
+    got = guarded(lambda: mnemonic_mod.normalize_text(text))
+    want = ref_normalize(text)
+    run.count('normalize:' + ('ascii' if text.isascii() else 'changed' if want != text else 'unchanged'))
+    sig = {'op': 'normalize', 'text': text}
+    if got != {'ok': want}:
+        run.violation(case, f'normalize_text({text!r}) = {str(got)[:120]!r}, Electrum normalisation gives {want!r}', signature=sig)
+        return
+    for name, other in spellings(text):
+        # upper-casing may change the text itself for a few characters (e.g. sharp s): compare only when the
+        # reference says the spelling is equivalent
+        if ref_normalize(other) != want:
+            continue
+        g2 = guarded(lambda: mnemonic_mod.normalize_text(other))
+        if g2 != got:
+            run.violation(dict(case, other=other), f'the {name} spelling {other!r} normalises to {str(g2)[:100]!r}, '
+                                                   f'the original {text!r} to {want!r}', signature=sig)
+            return
+    mod = bytes.fromhex(model.call('normalize_text', s=u32(text).hex())).decode('utf-32-be')
+    run.compare('C06.normalize_text', case, want, mod)
+
+
+def do_stretch_u(run, model, case):
+    """mnemonic_to_seed on Unicode mnemonic / passphrase: PBKDF2 of the reference-normalised text, the same seed
+    for every equivalent spelling, and the master key of it"""
+    text, pw = case['text'], case['password']
+    run.case(case, nontrivial=True, sample=False)
+    run.count('stretch-unicode')
+    sig = {'op': 'stretch_u', 'text': text, 'password': pw}
+    want = ref_stretch(text, pw)
+    got = guarded(lambda: Mnemonic.mnemonic_to_seed(text, pw).hex())
+    if got != {'ok': want.hex()}:
+        run.violation(case, f'mnemonic_to_seed({text!r}, {pw!r}) is not PBKDF2-HMAC-SHA512 of the normalised mnemonic '
+                            f'{ref_normalize(text)!r} and passphrase {ref_normalize(pw)!r}', signature=sig)
+        return
+    for (tn, t2), (pn, p2) in zip(spellings(text), spellings(pw)[1:] + spellings(pw)[:1]):
+        if ref_normalize(t2) != ref_normalize(text) or ref_normalize(p2) != ref_normalize(pw):
+            continue
+        g2 = guarded(lambda: Mnemonic.mnemonic_to_seed(t2, p2).hex())
+        if g2 != got:
+            run.violation(dict(case, other=[t2, p2]), f'the same mnemonic typed as {t2!r} ({tn}) with passphrase {p2!r} ({pn}) '
+                                                      f'stretches to a different seed than {text!r} / {pw!r}', signature=sig)
+            return
+    led = get_ledger('main')
+    root = guarded(lambda: key_obs(Account.get_private_key_from_seed(led, text, pw)))
+    ref = RefKey.from_seed(ref_stretch(text, pw or 'lbryum'))
+    if 'ok' not in root or root['ok']['key'] != ref.k.to_bytes(32, 'big').hex():
+        run.violation(case, f'get_private_key_from_seed({text!r}, {pw!r}) is not the master key of the normalised mnemonic',
+                      signature=sig)
+        return
+    run.compare('C06.from_seed', case, root, model.call('from_seed', seed=ref_stretch(text, pw or 'lbryum').hex()))
+
+
+def do_stretch_multi(run, model, case):
+    """the same mnemonic stretched with several passphrases, in the order of the case, in one process: every
+    answer must be PBKDF2-HMAC-SHA512(mnemonic, passphrase) and lead to the BIP32 master key of that seed"""
+    text = case['text']
+    led = get_ledger('main')
+    run.case(case, nontrivial=len({pw for _, pw in case['passwords']}) > 1)
+    run.count('stretch-multi:%d' % len(case['passwords']))
+    for j, (how, pw) in enumerate(case['passwords']):
+        if how == 'seed':
+            got = guarded(lambda: Mnemonic.mnemonic_to_seed(text, pw).hex())
+            want = ref_stretch(text, pw)
+            if got != {'ok': want.hex()}:
+                run.violation(case, f'call {j}: mnemonic_to_seed({text!r}, {pw!r}) is not PBKDF2-HMAC-SHA512 of that '
+                                    f'mnemonic and passphrase: {str(got)[:60]}',
+                              signature={'op': 'stretch_multi', 'text': text, 'passwords': case['passwords']})
+                return
+        else:
+            got = guarded(lambda: key_obs(Account.get_private_key_from_seed(led, text, pw)))
+            want = ref_stretch(text, pw or 'lbryum')
+            ref = RefKey.from_seed(want)
+            if 'ok' not in got or got['ok']['key'] != ref.k.to_bytes(32, 'big').hex() or got['ok']['cc'] != ref.cc.hex():
+                run.violation(case, f'call {j}: get_private_key_from_seed({text!r}, {pw!r}) is not the BIP32 master key '
+                                    f'of PBKDF2(mnemonic, {pw or "lbryum"!r})',
+                              signature={'op': 'stretch_multi', 'text': text, 'passwords': case['passwords']})
+                return
+            run.compare('C06.from_seed', case, got, model.call('from_seed', seed=want.hex()))
+
+
 def do_single(run, model, case):
     """single-address account: both chains are the account key's own address, generated once"""
     lname = case['ledger']
@@ -1037,7 +1264,7 @@ def do_single(run, model, case):
     finally:
         loop.close()
         shutil.rmtree(tmp, ignore_errors=True)
-    seed = hashlib.pbkdf2_hmac('sha512', ' '.join(case['mnemonic'].lower().split()).encode(), b'lbryum', 2048, 64)
+    seed = ref_stretch(case['mnemonic'], 'lbryum')
     want = RefKey.from_seed(seed).address(prefix)
     if not (impl['first'] == impl['receiving'] == impl['change'] == [want] and impl['second'] == [] and impl['priv_addr'] == want):
         run.violation(case, f'single-address account: {impl}, expected the one address {want}',
@@ -1053,22 +1280,28 @@ def do_stretch(run, model, case):
     run.case(case, nontrivial=True, sample=False)
     run.count('stretch')
     impl = guarded(lambda: Mnemonic.mnemonic_to_seed(text, pw))
-    norm = lambda x: ' '.join(x.lower().split())
-    want = hashlib.pbkdf2_hmac('sha512', norm(text).encode(), norm(pw).encode(), 2048, 64)
+    want = ref_stretch(text, pw)
     if impl != {'ok': want}:
         run.violation(case, f'mnemonic_to_seed({text!r}, {pw!r}) differs from PBKDF2-HMAC-SHA512',
                       signature={'op': 'stretch', 'text': text, 'password': pw})
         return
     led = get_ledger('main')
     root = guarded(lambda: key_obs(Account.get_private_key_from_seed(led, text, pw)))
-    want_pw = hashlib.pbkdf2_hmac('sha512', norm(text).encode(), norm(pw or 'lbryum').encode(), 2048, 64)
+    want_pw = ref_stretch(text, pw or 'lbryum')
+    ref = RefKey.from_seed(want_pw)
+    if 'ok' not in root or root['ok']['key'] != ref.k.to_bytes(32, 'big').hex() or root['ok']['cc'] != ref.cc.hex():
+        run.violation(case, f'get_private_key_from_seed({text!r}, {pw!r}) is not the BIP32 master key of '
+                            f'PBKDF2(mnemonic, {pw or "lbryum"!r})',
+                      signature={'op': 'stretch', 'text': text, 'password': pw})
+        return
     run.compare('C06.from_seed', case, root, model.call('from_seed', seed=want_pw.hex()))
 
 
 DISPATCH = {
     'b58enc': do_b58enc, 'b58dec': do_b58dec, 'b58check': do_b58check, 'b58check_corrupt': do_b58check_corrupt,
     'xparse': do_xparse, 'xstr': do_xstr, 'derive': do_derive, 'forced': do_forced, 'account': do_account,
-    'single': do_single, 'stretch': do_stretch, 'mn': do_mn, 'mndec': do_mndec, 'wordlists': do_wordlists, 'make_seed': do_make_seed, 'scalar': do_scalar,
+    'single': do_single, 'stretch': do_stretch, 'stretch_multi': do_stretch_multi,
+    'addrcheck': do_addrcheck, 'addrvalid': do_addrvalid, 'normalize': do_normalize, 'stretch_u': do_stretch_u, 'mn': do_mn, 'mndec': do_mndec, 'wordlists': do_wordlists, 'make_seed': do_make_seed, 'scalar': do_scalar,
 }
 
 # ----------------------------------------------------------------------------------------------
@@ -1126,6 +1359,75 @@ def gen_b58check(rng, n, full_every):
             corrupt.append(['ins', rng.randrange(enc_len + 1), rng.choice(B58)])
             corrupt.append(['swap', rng.randrange(enc_len), ''])
         yield {'op': 'b58check', 'p': p.hex(), 'corrupt': corrupt}
+
+
+def gen_addrcheck(rng, n, full_every):
+    for j in range(n):
+        lname = ['main', 'test', 'regtest'][j % 3]
+        kind = rng.choice(['pubkey', 'pubkey', 'script'])
+        h = rng.choice([bytes(rng.getrandbits(8) for _ in range(20))] * 4 + [b'\0' * 20, b'\xff' * 20,
+                       b'\0' * 10 + bytes(rng.getrandbits(8) for _ in range(10))])
+        ln = 35
+        corrupt = [['swap', pos, ''] for pos in range(ln)]             # every transposition
+        if j % full_every == 0:
+            corrupt += [['sub', pos, ch] for pos in range(ln) for ch in B58]   # every substitution
+        else:
+            corrupt += [['sub', pos, rng.choice(B58)] for pos in range(ln)]
+            corrupt += [['sub', pos, rng.choice('0OIl')] for pos in rng.sample(range(ln), 3)]
+        # the last characters carry the checksum: always all 58 there
+        corrupt += [['sub', pos, ch] for pos in range(31, ln) for ch in B58]
+        for _ in range(3):
+            corrupt.append(['del', rng.randrange(ln), ''])
+            corrupt.append(['ins', rng.randrange(ln + 1), rng.choice(B58)])
+        yield {'op': 'addrcheck', 'ledger': lname, 'kind': kind, 'h160': h.hex(), 'corrupt': corrupt}
+
+
+UNICODE_BITS = ['á', 'é', 'ñ', 'ü', 'Å', 'ç', 'ő', 'a\u0301', 'n\u0303', 'e\u0301\u0302', 'ｆｕｌｌ', 'ＷＩＤＥ', 'ß', 'İ', 'ΣΑΣ', 'ǆ',
+                'ﬁ', '①', 'Ⅷ', '한글', '각', 'あ', 'が', 'カ゛', 'ｶﾞ', '的', '一', '龥', '㍿', '𠀀', 'x', 'Ab', 'z9', '\u0301']
+UNICODE_SEPS = [' ', ' ', ' ', '  ', '\t', '\n', '\u3000', '\u00a0', '\u2003', '\u2028', '\x85', '\x1f', ' \u3000 ']
+
+
+def gen_unicode_text(rng):
+    c = rng.random()
+    if c < 0.35:
+        name = rng.choice(['spanish', 'japanese', 'chinese_simplified', 'portuguese'])
+        src = importlib.import_module('lbry.wallet.words.' + name).words
+        ws = [rng.choice(src) for _ in range(rng.choice([1, 2, 12]))]
+        # spanish: prefer the accented words
+        if name == 'spanish' and rng.random() < 0.7:
+            acc = [w for w in src if not w.isascii()]
+            ws = [rng.choice(acc) if rng.random() < 0.6 else w for w in ws]
+        text = rng.choice([' ', ' ', '\u3000']).join(ws)
+        return unicodedata.normalize(rng.choice(['NFC', 'NFC', 'NFD', 'NFKC']), text)
+    toks = []
+    for _ in range(rng.randint(1, 6)):
+        toks.append(''.join(rng.choice(UNICODE_BITS) for _ in range(rng.randint(1, 3))))
+    text = ''
+    for t in toks:
+        text += t + rng.choice(UNICODE_SEPS)
+    if rng.random() < 0.6:
+        text = text.strip()
+    if rng.random() < 0.2:
+        text = text.upper()
+    return text
+
+
+def gen_unicode(rng, n):
+    for _ in range(n):
+        yield {'op': 'normalize', 'text': gen_unicode_text(rng)}
+    for _ in range(max(2, n // 10)):
+        yield {'op': 'stretch_u', 'text': gen_unicode_text(rng),
+               'password': rng.choice(['', 'contraseña', 'Pässwörd', 'ｐａｓｓ', 'パスワード', gen_unicode_text(rng)])}
+
+
+def gen_stretch_multi(rng, n):
+    english = wordlist('english')
+    for _ in range(n):
+        text = ' '.join(rng.choice(english) for _ in range(rng.choice([1, 2, 12])))
+        pool = rng.sample(['', 'lbryum', 'hunter2', 'Pass word', 'x', 'correct horse'], rng.choice([2, 3]))
+        calls = [[rng.choice(['seed', 'key']), pw] for pw in pool]
+        calls.append([rng.choice(['seed', 'key']), rng.choice(pool)])       # come back to an earlier passphrase
+        yield {'op': 'stretch_multi', 'text': text, 'passwords': calls}
 
 
 def gen_xparse(rng, n):
@@ -1282,8 +1584,21 @@ def gen_account(rng, n):
         if ex != gap:
             rows.extend([0] * (gap - ex))
 
+    spanish = [unicodedata.normalize('NFC', w) for w in importlib.import_module('lbry.wallet.words.spanish').words]
+    accented = [w for w in spanish if not w.isascii()]
+    # large gaps (more than 100 keys in one add_keys call): every stored record is compared with the derivation
+    for _ in range(max(1, n // 28)):
+        g0, g1 = rng.choice([(150, 101), (102, 101), (201, 103), (130, 100)])
+        ops = [['ensure_all']]
+        if rng.random() < 0.5:
+            ops += [['use', 0, rng.choice([99, 100, 101]), 1], ['ensure', 0, rng.choice([101, 102, 120])]]
+        yield {'op': 'account', 'ledger': 'main', 'mnemonic': ' '.join(rng.choice(english) for _ in range(12)),
+               'generator': {'name': 'deterministic-chain', 'receiving': {'gap': g0, 'maximum_uses_per_address': 1},
+                             'change': {'gap': g1, 'maximum_uses_per_address': 1}}, 'ops': ops, 'kind': 'large-gap'}
     for _ in range(n):
         words = [rng.choice(english) for _ in range(rng.choice([1, 3, 12, 12]))]
+        if rng.random() < 0.2:
+            words = [rng.choice(accented) if rng.random() < 0.5 else rng.choice(spanish) for _ in range(rng.choice([2, 12]))]
         mn = ' '.join(words)
         gen = {}
         if rng.random() < 0.65:
@@ -1444,6 +1759,10 @@ def main(run):
         'Base58 byte strings 0..90 bytes with leading-zero / all-zero / 0xff clusters and texts with valid, invalid and '
         'non-ASCII characters; Base58Check payloads (address, WIF and 78-byte sizes) each with a substitution at every '
         'position (every 58-way substitution for one payload in N), deletions, insertions, transpositions; 78-byte '
+        'valid pubkey / script addresses of Ledger, TestNetLedger, RegTestLedger through is_pubkey_address / '
+        'is_script_address / valid_address_or_error, each with every transposition, a substitution at every position '
+        '(all 58 at the checksum end; all 58 everywhere for one address in N), deletions, insertions, and on the other '
+        'ledger classes; the same mnemonic stretched with 2-3 passphrases in varying order in one process; '
         'extended keys (3 ledgers) with boundary depth / child number and damaged length, version, prefix byte, '
         'off-curve or out-of-range key, also through the string form; seeds of 16..64 bytes with paths of depth 0..6 '
         'over {0,1,2,2^31-1,2^31,2^31+1,2^32-1,random normal, random hardened, 2^32 (rejected)}; a deterministic search for '
@@ -1477,7 +1796,13 @@ def main(run):
                          'length <= 2 over the alphabet + "0OIl "; mnemonic integers 0..2999 for synthetic lists of 2,3,5,10 words')
     for case in gen_b58(rng, 600 * n):
         check_case(run, model, case)
-    for case in gen_b58check(rng, 60 * n, 30 if q else 10):
+    for case in gen_b58check(rng, 45 * n, 30 if q else 10):
+        check_case(run, model, case)
+    for case in gen_addrcheck(rng, 6 * n, 6 if q else 3):
+        check_case(run, model, case)
+    for case in gen_unicode(rng, 120 * n):
+        check_case(run, model, case)
+    for case in gen_stretch_multi(rng, 4 * n):
         check_case(run, model, case)
     for case in gen_xparse(rng, 500 * n):
         check_case(run, model, case)
